@@ -1,22 +1,22 @@
 CONSTANTS
-  Clients = {"c1", "c2"}
-  HostOf <- H2
+  Clients = {"c1"}
+  HostOf <- H1
   NBlocks = 2
   BlockBits = 1
-  Handles = {"hA"}
-  Nums = {1}
+  Handles = {"hA", "hB"}
+  Nums = {1, 2}
   Strict = FALSE
   Cool = 100
   MaxB = 0
   TwoPools = FALSE
   RsvLast = FALSE
-  MaxOps = 2
-  MaxCrash = 0
-  MaxConf = 0
+  MaxOps = 3
+  MaxCrash = 1
+  MaxConf = 1
   MaxTicks = 2
   MaxCaps = 1
   TickLen = 70
-  OpKinds <- AssignRel
+  OpKinds <- AllOps
   FixIncr = TRUE
 INIT Init
 NEXT Next
